@@ -3,9 +3,9 @@ instructions) run by Cpu::run with a scripted (empty) control socket; totals on 
 import random
 from . import common, isa
 from .c10 import simple_insn
-KEYS = ["resclass", "pc", "ccr", "er", "md", "sum", "msgs", "con"]
+KEYS = ["resclass", "pc", "ccr", "er", "md", "sum", "q", "msgs", "con"]
 RULE = ("random programs: blocks of register instructions, counted loops (DEC/BNE, nested), BSR/JSR subroutines, MOV.B stores to port DDR/DR, "
-        "MES write calls, optional unimplemented opcode (run must fail); a few long loops crossing 1-3 sync thresholds; "
+        "8-bit timer 0 started by the program in about 40% of the runs (TCNT / TCSR / pending requests at exit are compared), MES write calls, optional unimplemented opcode (run must fail); a few long loops crossing 1-3 sync thresholds; "
         "distinct = distinct (program, final state, message sequence)")
 SHARD_TIMEOUT = 1500
 
@@ -35,6 +35,13 @@ def prog(r, long_run):
             out += i; n -= 1
         return out
     code += safe_block(r.randrange(0, 6))
+    if r.random() < (0.25 if long_run else 0.45):
+        # start 8-bit timer 0: MOV.B #tcr,R6L ; MOV.B R6L,@H'FFFF80 (clock select 1-3, enables, clear source none / external)
+        tcr = r.choice([1, 1, 2, 3]) | r.choice([0, 0, 0x18]) | r.choice([0, 0x20, 0x40, 0x80, 0xe0])
+        if r.random() < 0.15:
+            tcr = r.choice([0, 1, 2, 3]) | (r.randrange(256) & 0xf8)
+        code += isa.enc_mov_imm("b", tcr, 14) + [0x3e, 0x80]
+        code += safe_block(r.randrange(0, 3))
     if long_run:
         inner = r.choice([0x6000, 0xa000, 0xffff])
         outer = r.choice([1, 1, 2, 3])
